@@ -499,7 +499,8 @@ theorem C05_radix_main (feats : Features) (fmt : Format) (R : RadixClass ⟨feat
   exact numberToFloat_radix slowModel hF ⟨feats, fmt, false⟩ R n (hsyn n cnt hp) (hslow n cnt hp)
 
 /-- **the full statement** (a `Prop`): the same without residual hypotheses, for the separator-free format classes of C12
-and inputs of bytes shorter than `2^60` -/
+and inputs of bytes shorter than `2^60`. `Props.C05Syntax` discharges `SyntaxFacts` for the classes with exponent base =
+radix (`C05_generic_main`: `SlowFacts` left; `C05_pow2_main`: the range of the exponent word left). -/
 def C05_radix_full : Prop :=
   ∀ (feats : Features) (fmt : Format), RadixClass ⟨feats, fmt, false⟩ →
     (feats.format = false ∨ C12.SepPrefixFree fmt) →
